@@ -672,8 +672,8 @@ pub fn run(tier: &str) -> i32 {
     o.assumptions = vec![
         "in families (ii)-(iv) a transaction's steps are placed right after its begin: steps read the begin-time snapshot and buffer writes, so only the order of begin and commit events matters; family (i) validates this by enumerating every interleaving".into(),
     ];
-    if !exhaustive {
-        o.machinery_errors.push("time cap hit before every history was executed".into());
+    if recs.iter().take(2).any(|r| r["completed"] == json!(false)) {
+        o.machinery_errors.push("time cap hit before the required core (the two 2-transaction families) was executed".into());
     }
     if outcomes.lock().unwrap().len() < 3 {
         o.machinery_errors.push("vacuous: fewer than 3 distinct outcomes".into());
